@@ -32,12 +32,20 @@ def _run_one(arg):
     try:
         r = mod.run_case(desc)
     except CaseTimeout:
-        r = dict(failures=[dict(clause='terminates', detail=f'case exceeded {CASE_TIMEOUT}s wall clock',
+        r = dict(failures=[dict(clause='terminates', detail=f'case exceeded its wall-clock limit after {time.time() - t0:.0f}s (limit {CASE_TIMEOUT}s per case, or the tighter limit a case sets for itself)',
                                 signature='timeout')], nontrivial=True, key=json.dumps(desc, sort_keys=True))
     except Exception as e:
-        # a crash of the harness itself is not a violation of the property: report as harness error
-        r = dict(failures=[], nontrivial=False, key=json.dumps(desc, sort_keys=True, default=str),
-                 harness_error=f'{type(e).__name__}: {e}\n{traceback.format_exc()[-1500:]}')
+        tb = traceback.extract_tb(e.__traceback__)
+        inner = tb[-1] if tb else None
+        if inner is not None and '/pytenet/' in inner.filename.replace('\\', '/'):
+            # the exception was raised inside the code under test at a place where the stand-in did not expect one: that is a
+            # failure of the clause "returns" (the unchanged tree has no such case), not a crash of the harness
+            r = dict(failures=[dict(clause='returns', detail=f'uncaught {type(e).__name__}: {e} raised in {os.path.basename(inner.filename)}:{inner.lineno} ({inner.name})',
+                                    signature=f'{inner.name}:returns:uncaught')], nontrivial=True, key=json.dumps(desc, sort_keys=True, default=str))
+        else:
+            # a crash of the harness itself is not a violation of the property: report as harness error
+            r = dict(failures=[], nontrivial=False, key=json.dumps(desc, sort_keys=True, default=str),
+                     harness_error=f'{type(e).__name__}: {e}\n{traceback.format_exc()[-1500:]}')
     finally:
         signal.alarm(0)
     r['desc'] = desc
